@@ -140,8 +140,79 @@ def _consumed(script, catch, n):
     return script
 
 
+# How the user callable declares `trace_object`.  The library documents that trace_object and the extra kwargs are passed
+# as NAMED arguments; every one of these callables is valid for that contract and behaves like the same scripted function.
+CALLABLES = ['plain', 'lambda', 'kwonly', 'second', 'kwdict', 'varargs', 'partial', 'partial_kwonly', 'object', 'object_kwonly',
+             'method', 'method_kwonly', 'decorated']
+STRICT = {'kwonly', 'second', 'kwdict', 'partial_kwonly', 'object_kwonly', 'method_kwonly', 'decorated'}   # not callable as f(trace, **kw)
+
+
+def _wrap(inner, how):
+    """inner(trace_object, **kw) seen through a callable of another signature."""
+    import functools
+    if how == 'plain':
+        return inner
+    if how == 'lambda':
+        return lambda trace_object, **kw: inner(trace_object, **kw)
+    if how == 'kwonly':
+        def f_kwonly(*, trace_object, **kw):
+            return inner(trace_object, **kw)
+        return f_kwonly
+    if how == 'second':         # another parameter first, supplied through the Synchronizer kwargs
+        def f_second(off2, trace_object, **kw):
+            return inner(trace_object, off2=off2, **kw)
+        return f_second
+    if how == 'kwdict':
+        def f_kwdict(**kw):
+            t = kw.pop('trace_object')
+            return inner(t, **kw)
+        return f_kwdict
+    if how == 'varargs':
+        def f_varargs(*args, **kw):
+            if args:
+                (t,) = args
+            else:
+                t = kw.pop('trace_object')
+            return inner(t, **kw)
+        return f_varargs
+    if how == 'partial':
+        def g(lead, trace_object, **kw):
+            assert lead == 'lead'
+            return inner(trace_object, **kw)
+        return functools.partial(g, 'lead')
+    if how == 'partial_kwonly':
+        def g2(*, scale, trace_object, **kw):
+            assert scale == 1
+            return inner(trace_object, **kw)
+        return functools.partial(g2, scale=1)
+    if how in ('object', 'object_kwonly', 'method', 'method_kwonly'):
+        class Resync:
+            def __call__(self, trace_object, **kw):
+                return inner(trace_object, **kw)
+
+            def m(self, trace_object, **kw):
+                return inner(trace_object, **kw)
+
+        class ResyncKw:
+            def __call__(self, *, trace_object, **kw):
+                return inner(trace_object, **kw)
+
+            def m(self, *, trace_object, **kw):
+                return inner(trace_object, **kw)
+        o = ResyncKw() if how.endswith('kwonly') else Resync()
+        return o if how.startswith('object') else o.m
+    if how == 'decorated':      # a generic keyword-forwarding decorator
+        def deco(fn):
+            @functools.wraps(fn)
+            def wrapper(**kwargs):
+                return fn(**kwargs)
+            return wrapper
+        return deco(inner)
+    raise ValueError(how)
+
+
 def make_case(rng, n, pattern, L=None, out_len=None, dtype=None, out_dtype=None, out_kind=None, select=None, full=None,
-              history=None, old=None, overwrite=None, kwargs=None):
+              history=None, old=None, overwrite=None, kwargs=None, call=None):
     """pattern is over the EFFECTIVE input (after select); full = number of traces of the underlying set.
     history: list of ('check', script, catch) | ('str',) | ('report',); script = what the function does at the calls of
     that check() (its length is nb_traces).  old: None or (n_old, L_old): the output file exists, written by a previous
@@ -171,7 +242,9 @@ def make_case(rng, n, pattern, L=None, out_len=None, dtype=None, out_dtype=None,
             'out_len': out_len if out_len is not None else rng.choice([L, max(1, L - 1), L + 1, 1, 2 * L + 1]),
             'out_dtype': out_dtype, 'offs2': offs2, 'out_kind': out_kind or rng.choice(['str', 'path']),
             'history': events, 'segments': segments, 'np_seed': rng.randrange(2 ** 31), 'overwrite': overwrite,
-            'old': None, 'kwargs': kwargs}
+            'old': None, 'kwargs': kwargs, 'callable': call or rng.choice(CALLABLES)}
+    if case['callable'] == 'second' and not kwargs:
+        case['kwargs'] = {'off2': 2 * rng.randint(-4, 4), 'tag': 'second'}
     if old is not None:
         n_old, L_old = old
         case['old'] = {'samples': [[rng.randint(-50, 50) for _ in range(L_old)] for _ in range(n_old)],
@@ -227,7 +300,8 @@ class SyncKind(Kind):
     rule = ('scared.Synchronizer(read_ths_from_ram set or sub-set, ETS file name as str/Path, scripted function).run(): ALL 3^n '
             'accept/None/raise patterns for n <= 5 (quick) / 6 (thorough), failure runs >= 8 and >= 16 (warning path) at the start, '
             'middle and end, first/last rejected, all rejected, all accepted, empty input set, returned data shorter/equal/longer '
-            'than the trace, several exception classes, sub-sets with repeated traces, extra kwargs; non-trivial = at least one '
+            'than the trace, several exception classes, sub-sets with repeated traces, extra kwargs, the user callable drawn from 13 '
+            'signatures (see the history kind); non-trivial = at least one '
             'accepted and one rejected trace')
 
     def gen(self, rng, tier):
@@ -310,6 +384,7 @@ class SyncKind(Kind):
             k = case['out_len']
             return (np.resize(arr.astype('float64'), k) + (_at(case['offs2'], i, 0) + int(kw.get('off2', 0))) / 2).astype(case['out_dtype'])
 
+        user_callable = _wrap(function, case.get('callable', 'plain'))
         core.WORK.mkdir(exist_ok=True)
         fname = str(core.WORK / f'c20_{os.getpid()}_{next(_counter)}.ets')
         if os.path.exists(fname):
@@ -339,7 +414,7 @@ class SyncKind(Kind):
                 ckw = dict(expected_kw)
                 if case.get('overwrite') is not None:
                     ckw['overwrite'] = bool(case['overwrite'])
-                sync = scared.Synchronizer(ths, output, function, **ckw)
+                sync = scared.Synchronizer(ths, output, user_callable, **ckw)
                 # ---- the pre-run history
                 hist = []
                 for ev in case.get('history') or []:
@@ -527,13 +602,14 @@ class SyncKind(Kind):
                 'warnings_observed': obs.get('warnings', -1), 'out_kind': case['out_kind'],
                 'data_len': 'shorter' if case['out_len'] < len((case['samples'] or [[0] * 3])[0]) else
                             'equal' if case['out_len'] == len((case['samples'] or [[0] * 3])[0]) else 'longer',
-                'subset': case['select'] is not None, 'kwargs': case.get('kwargs') is not None}
+                'subset': case['select'] is not None, 'kwargs': case.get('kwargs') is not None,
+                'callable': case.get('callable', 'plain')}
 
     def tags(self, case, obs):
         return ['synchronizer']
 
     def sample(self, case, obs):
-        c = {k: case.get(k) for k in ('pattern', 'out_len', 'out_kind', 'dtype', 'out_dtype', 'select', 'history', 'segments', 'overwrite', 'kwargs')}
+        c = {k: case.get(k) for k in ('pattern', 'out_len', 'out_kind', 'dtype', 'out_dtype', 'select', 'history', 'segments', 'overwrite', 'kwargs', 'callable')}
         c['old_rows'] = None if case.get('old') is None else len(case['old']['samples'])
         o = {k: obs.get(k) for k in ('processed', 'synchronized', 'second', 'run', 'warnings', 'report', 'history')}
         if obs.get('rows'):
@@ -541,7 +617,11 @@ class SyncKind(Kind):
         return {'case': c, 'observed': o}
 
     def shrink(self, case):
-        """Drop one pre-run event; drop one effective input trace (and its script entry)."""
+        """Plain signature; drop one pre-run event; drop one effective input trace (and its script entry)."""
+        if case.get('callable', 'plain') != 'plain':
+            c = dict(case)
+            c['callable'] = 'plain'
+            yield c
         for k in range(len(case.get('history') or [])):
             c = dict(case)
             c['history'] = case['history'][:k] + case['history'][k + 1:]
@@ -576,7 +656,9 @@ def _hist_label(case):
 class HistoryKind(SyncKind):
     """Histories of public calls before run(), and output files that already exist."""
     name = 'synchronizer_history'
-    rule = ('one Synchronizer object driven through: construction over no file / a file left by a previous Synchronizer run with '
+    rule = ('user callables of 13 signatures (plain, lambda, keyword-only trace_object, trace_object second after a parameter given '
+            'through the Synchronizer kwargs, **kw dict, *args/**kw, functools.partial positional and keyword-only, callable instances, '
+            'bound methods, keyword-forwarding decorator) in run() and check(); one Synchronizer object driven through: construction over no file / a file left by a previous Synchronizer run with '
             'fewer or more traces and another trace length (overwrite not given / False / True, str / Path), then 0..4 of '
             'check(nb_traces, catch_exceptions=True/False) [scripts: all accepted, all rejected, rejected first, rejected after 1..k '
             'accepted picks, None result] and str() / report(), then run(), str(), run() again; deterministic cross product first, '
@@ -584,6 +666,14 @@ class HistoryKind(SyncKind):
             'at least one accepted trace in the run')
 
     def gen(self, rng, tier):
+        # --- boundary block 0: how the user callable is invoked.  Every signature that is valid for the documented contract
+        # (trace_object and the extra kwargs passed BY NAME), accepting every trace / some traces, in run() and in check()
+        for call in CALLABLES:
+            kw = {'off2': 4, 'tag': call}
+            yield make_case(rng, 4, 'AAAA', call=call)
+            yield make_case(rng, 5, 'ARANA', call=call, kwargs=kw)
+            yield make_case(rng, 3, 'AAA', call=call, history=[('check', 'AAAA', True), ('check', 'AA', False)], kwargs=kw)
+            yield make_case(rng, 3, 'ANA', call=call, history=[('check', 'ARA', True), ('check', 'AAN', False)])
         # --- boundary block 1: output file absent / shorter / longer than the accepted set x overwrite x str/Path x run patterns
         for old in (None, (2, 3), (9, 2)):
             for overwrite in (None, False, True):
@@ -644,14 +734,14 @@ class HistoryKind(SyncKind):
 
     def features(self, case, obs):
         f = SyncKind.features(self, case, obs)
-        f = {k: f[k] for k in ('accepted', 'out_kind', 'kwargs')}
+        f = {k: f[k] for k in ('accepted', 'out_kind', 'kwargs', 'callable')}
         f.update({'history': _hist_label(case), 'events': len(case.get('history') or []),
                   'file': 'none' if case.get('old') is None else 'exists',
                   'overwrite': str(case.get('overwrite')), 'run': obs.get('run', 'raised')})
         return f
 
     def tags(self, case, obs):
-        t = ['synchronizer']
+        t = SyncKind.tags(self, case, obs)
         if case.get('history'):
             t.append('pre-run-history')
         if case.get('old') is not None:
